@@ -52,7 +52,7 @@ theorem iter_ess (env : Env) (n : Nat) : ∀ s : State E, (iter env n s).ess = s
   | succ n ih => intro s; simp only [iter]; rw [ih, loopStep_ess]
 
 theorem wf_exec (env : Env) (wf : WF env) (x : Id → Nat → Outcome) : WF { env with exec := x } :=
-  ⟨wf.sub, wf.lat, wf.cap⟩
+  ⟨wf.sub, wf.lat, wf.rtt, wf.cap⟩
 
 theorem loopStep_uniform (env : Env) (wf : WF env) (s : State E) (hu : UniformOn env.owned s.P) :
     UniformOn env.owned (loopStep env s).P := by
